@@ -5,6 +5,14 @@
 From Plenc Require Import Base Varint Wire VarintProofs WireProofs JsonAny Codec SizeProofs DecBase RoundTripBase RoundTrip.
 Open Scope N_scope.
 
+(** map keys pairwise different (as Go's key equality sees them), each new key
+    compared with the ones before it *)
+Fixpoint keys_fresh (seen : list val) (es : list (val * val)) : Prop :=
+  match es with
+  | [] => True
+  | e :: r => Forall (fun k => val_eqb (fst e) k = false) seen /\ keys_fresh (seen ++ [fst e]) r
+  end.
+
 Fixpoint canon (c : codec) (v : val) {struct c} : Prop :=
   match c, v with
   | CNull c', VNull _ p => canon c' p
@@ -17,7 +25,12 @@ Fixpoint canon (c : codec) (v : val) {struct c} : Prop :=
                     /\ canon (f_codec f) (slot vs (f_slot f))) /\ all r
        end) fs
     /\ (forall i, (i < n)%nat -> ~ In i (map (fun f => f_slot f) fs) -> nth i vs (VSkip 0) = VSkip 0)
-  | CSliceLen c', VSlice l => Forall (canon c') l
+  | (CSliceLen c' | CSliceProto c'), VSlice l => Forall (canon c') l
+  | CMapProto kc vc, VMap (Some []) => False     (* an empty map in the repeated form reads back as nil *)
+  | (CMap kc vc | CMapProto kc vc), VMap (Some es) =>
+    Forall (fun e => ((omit kc (fst e) = true -> fst e = zero kc) /\ canon kc (fst e))
+                     /\ ((omit vc (snd e) = true -> snd e = zero vc) /\ canon vc (snd e))) es
+    /\ keys_fresh [] es
   | _, _ => True
   end.
 
@@ -98,15 +111,54 @@ Proof.
     rewrite Hsame. reflexivity.
 Qed.
 
+(** ** maps: entries with fresh keys are appended *)
+Lemma map_lookup_fresh k : forall m, Forall (fun kk => val_eqb k kk = false) (map fst m) -> map_lookup k m = None.
+Proof.
+  induction m as [|[k' x'] m IH]; intros H; cbn [map_lookup]; [reflexivity|].
+  cbn [map fst] in H. inversion H as [|? ? Hk Hr]; subst. rewrite Hk. apply IH. exact Hr.
+Qed.
+Lemma map_set_fresh k x : forall m, Forall (fun kk => val_eqb k kk = false) (map fst m) -> map_set k x m = m ++ [(k, x)].
+Proof.
+  induction m as [|[k' x'] m IH]; intros H; cbn [map_set app]; [reflexivity|].
+  cbn [map fst] in H. inversion H as [|? ? Hk Hr]; subst. rewrite Hk. f_equal. apply IH. exact Hr.
+Qed.
+
+Lemma fold_entries_fresh kc vc :
+  (forall k, rt_ok kc -> wfv kc k -> canon kc k -> merge kc (zero kc) k = k) ->
+  (forall x, rt_ok vc -> wfv vc x -> canon vc x -> merge vc (zero vc) x = x) ->
+  rt_ok kc -> rt_ok vc ->
+  forall es m,
+  Forall (fun e => (omit kc (fst e) = true \/ wfv kc (fst e)) /\ (omit vc (snd e) = true \/ wfv vc (snd e))) es ->
+  Forall (fun e => ((omit kc (fst e) = true -> fst e = zero kc) /\ canon kc (fst e))
+                   /\ ((omit vc (snd e) = true -> snd e = zero vc) /\ canon vc (snd e))) es ->
+  keys_fresh (map fst m) es ->
+  fold_left (entry_merge kc vc) es m = m ++ es.
+Proof.
+  intros IHk IHv Hokk Hokv. induction es as [|[k x] es IH]; intros m Hw Hc Hfr; cbn [fold_left]; [rewrite app_nil_r; reflexivity|].
+  inversion Hw as [|? ? [Hwk Hwv] Hw']; subst. inversion Hc as [|? ? [[Hzk Hck] [Hzv Hcv]] Hc']; subst.
+  destruct Hfr as [Hnew Hfr]. cbn [fst snd] in *.
+  assert (Ek : (if omit kc k then zero kc else merge kc (zero kc) k) = k).
+  { destruct (omit kc k) eqn:Eo; [symmetry; apply Hzk; reflexivity|].
+    destruct Hwk as [Hwk|Hwk]; [congruence|]. apply IHk; assumption. }
+  assert (Em : entry_merge kc vc m (k, x) = m ++ [(k, x)]).
+  { unfold entry_merge. cbn [fst snd]. rewrite Ek. rewrite (map_lookup_fresh k m Hnew).
+    assert (Ex : (if omit vc x then zero vc else merge vc (zero vc) x) = x).
+    { destruct (omit vc x) eqn:Eo; [symmetry; apply Hzv; reflexivity|].
+      destruct Hwv as [Hwv|Hwv]; [congruence|]. apply IHv; assumption. }
+    rewrite Ex. apply map_set_fresh. exact Hnew. }
+  rewrite Em. rewrite IH; [rewrite <- app_assoc; reflexivity|assumption|assumption|].
+  rewrite map_app. cbn [map fst]. exact Hfr.
+Qed.
+
 (** ** merging into the zero value gives the value back *)
 Theorem merge_zero_id : forall c v, rt_ok c -> wfv c v -> canon c v -> merge c (zero c) v = v.
 Proof.
   induction c as [ |b|b|b| | | | |compat| |c IH|c IH|nm n fs IH|c IH|c IH|c IH|c IH|kc vc IHk IHv|kc vc IHk IHv| | | ]
     using codec_ind'; intros v Hok Hw Hc; cbn [rt_ok] in Hok; try contradiction; try reflexivity.
   - (* CNull *) cbn [wfv] in Hw. destruct v as [ | | | | | | |valid p| | | | |]; try contradiction. destruct valid; [|contradiction].
-    cbn [merge canon] in *. rewrite IH by assumption. reflexivity.
+    cbn [merge canon] in *. destruct Hok as [Hok _]. rewrite IH by assumption. reflexivity.
   - (* CPtr *) cbn [wfv] in Hw. destruct v as [ | | | | | |[p|]| | | | | |]; try contradiction.
-    cbn [merge canon zero] in *. rewrite IH by assumption. reflexivity.
+    cbn [merge canon zero] in *. destruct Hok as [Hok _]. rewrite IH by assumption. reflexivity.
   - (* CStruct *)
     assert (Hok' : rt_ok (CStruct nm n fs)) by exact Hok.
     destruct (rt_struct_fields nm n fs Hok') as (Hfs & Hnd & Hns).
@@ -137,12 +189,30 @@ Proof.
     cbn [wfv canon merge slice_elems] in *. destruct Hok as [Hokc _]. f_equal.
     induction l as [|x l IHl]; cbn [map]; [reflexivity|].
     inversion Hw; inversion Hc; subst. rewrite IH, IHl by assumption. reflexivity.
+  - (* CSliceProto *)
+    destruct v as [ | | | | | | | | |l| | |]; try (cbn [wfv] in Hw; contradiction).
+    cbn [wfv canon merge slice_elems zero app] in *. destruct Hok as [Hokc _]. f_equal.
+    induction l as [|x l IHl]; cbn [map]; [reflexivity|].
+    inversion Hw; inversion Hc; subst. rewrite IH, IHl by assumption. reflexivity.
+  - (* CMap *)
+    destruct v as [ | | | | | | | | | |[es|]| |]; try (cbn [wfv] in Hw; contradiction).
+    cbn [wfv canon] in *. destruct Hok as (Hokk & Hokv & _). destruct Hc as [Hc Hfr].
+    rewrite merge_map. cbn [zero].
+    rewrite (fold_entries_fresh kc vc IHk IHv Hokk Hokv es []); [reflexivity|assumption|assumption|exact Hfr].
+  - (* CMapProto *)
+    destruct v as [ | | | | | | | | | |[[|e es]|]| |]; try (cbn [wfv] in Hw; contradiction); try (cbn [canon] in Hc; contradiction).
+    cbn [wfv] in Hw. destruct Hok as (Hokk & Hokv & _).
+    assert (Hc' : Forall (fun e0 => ((omit kc (fst e0) = true -> fst e0 = zero kc) /\ canon kc (fst e0))
+                     /\ ((omit vc (snd e0) = true -> snd e0 = zero vc) /\ canon vc (snd e0))) (e :: es) /\ keys_fresh [] (e :: es)) by exact Hc.
+    destruct Hc' as [Hc1 Hfr].
+    rewrite merge_map_proto. cbn [zero].
+    rewrite (fold_entries_fresh kc vc IHk IHv Hokk Hokv (e :: es) []); [reflexivity|assumption|assumption|exact Hfr].
 Qed.
 
 (** C01: Unmarshal(Marshal(v)) into a fresh variable yields v *)
-Theorem roundtrip_fresh : forall c v, rt_ok c -> wfv c v -> fits c v -> canon c v -> omit c v = false ->
+Theorem roundtrip_fresh : forall c v, rt_ok c -> top_ok c -> wfv c v -> fits c v -> canon c v -> omit c v = false ->
   dec c (enc c v []) (wire c) (zero c) = Ok (v, len (enc c v [])).
 Proof.
-  intros c v Hok Hw Hf Hc Ho. pose proof (unmarshal_marshal c v (zero c) Hok Hw Hf Ho) as H.
+  intros c v Hok Ht Hw Hf Hc Ho. pose proof (unmarshal_marshal c v (zero c) Hok Ht Hw Hf Ho) as H.
   rewrite Ho in H. rewrite (merge_zero_id c v Hok Hw Hc) in H. exact H.
 Qed.
